@@ -235,7 +235,7 @@ PROPS["C09"] = {
     "props": ["OsmVerif.Props.C09"],
     "gens": ["Pbf"],
     "model_is_spec": ["offs "],
-    "required_theorems": ["accessors_pinned", "rules_eq", "accounted_eq_size", "feed_eq", "scanTrace_eq", "scan_objects", "reported_offset_is_block_start",
+    "required_theorems": ["resume_at_reported_offset", "accessors_pinned", "rules_eq", "accounted_eq_size", "feed_eq", "scanTrace_eq", "scan_objects", "reported_offset_is_block_start",
                           "resume_complete"],
     "technique": "Lean 4 model of the offset bookkeeping (bytesRead accounting, offset captured before each read and carried with the block, Next shifting previous/current) with the statements regenerated from decoder.Start / readFileBlock / Next and interpreted; theorems for every stream: reported offsets = byte offset of the object's block and the offset current before it, a scan from any block on yields exactly the remaining objects; executable model vs the real scanner on generated files, plus a second real scanner started at every reported offset",
     "level_text": "Machine-checked proof, for every stream (header or none, any number of blocks of any sizes, any of them yielding no object): every block is accounted with its full 4+header+blob length; the consumer receives each block with the byte offset at which it begins; after each returned object FullyScannedBytes is that offset and PreviousFullyScannedBytes the offset current before the block was taken (empty blocks shift like any other); a scan started on the stream from block i on (a data block first, no header) yields exactly the objects of blocks i.. - so stop-and-resume never skips an element. Correspondence: generated files with empty (fully skipped) blocks in every position, 8 skip combinations, 1..8 decoders; reported offsets after every Scan compared with the model, and a second real scanner started at every reported offset must yield the rest from the first object of that block.",
